@@ -40,6 +40,24 @@ m("C05", "ignore-cwnd", TCP + "snd.go", "seg != nil && s.outstanding < s.sndCwnd
 m("C05", "reno-rto-cwnd-2", TCP + "reno.go", "\tr.s.sndCwnd = 1\n", "\tr.s.sndCwnd = 2\n", "L4")
 m("C05", "cubic-rto-cwnd-2", TCP + "cubic.go", "\tc.s.sndCwnd = 1\n", "\tc.s.sndCwnd = 2\n", "L4")
 
+# ---------------------------------------------------------------- round-4 rules
+m("C01", "receiver-starts-at-irs", TCP + "rcv.go", "\t\trcvNxt:         irs + 1,", "\t\trcvNxt:         irs,", "R3", "first expected byte mislabelled")
+m("C01", "sender-starts-at-iss", TCP + "snd.go", "\t\tsndNxt:           iss + 1,", "\t\tsndNxt:           iss,", "R3", "first data byte labelled with the SYN's number")
+m("C03", "passive-open-acks-irs", TCP + "connect.go", "\th.iss = iss\n\th.ackNum = irs + 1\n", "\th.iss = iss\n\th.ackNum = irs\n", "H3", "SYN-ACK does not acknowledge the peer's SYN")
+m("C03", "active-open-starts-synrcvd", TCP + "connect.go", "\th.state = handshakeSynSent\n\th.flags = flagSyn\n", "\th.state = handshakeSynRcvd\n\th.flags = flagSyn\n", "H3", "active open starts in the wrong state")
+m("C04", "initial-right-edge-short", TCP + "rcv.go", "\t\trcvAcc:         irs.Add(rcvWnd + 1),", "\t\trcvAcc:         irs.Add(rcvWnd),", "N2", "initial right edge one short of what the handshake promised")
+m("C05", "recover-starts-past-iss", TCP + "snd.go", "\t\t\tlast: iss,\n", "\t\t\tlast: iss + 1,\n", "L5", "as seeded change C05-4")
+m("C05", "initial-rto-3s", TCP + "snd.go", "\t\trto:              1 * time.Second,", "\t\trto:              3 * time.Second,", "L1", "initial RTO")
+m("C06", "udp-length-preadded", "protocol/header/udp.go", "\ttmp := make([]byte, 2)\n\tbinary.BigEndian.PutUint16(tmp, totalLen)\n\tchecksum := Checksum(tmp, partialChecksum)\n", "\tchecksum := partialChecksum + totalLen\n", "E0w", "plain 16-bit addition into a running checksum")
+m("C15", "tcp-length-preadded", "protocol/header/tcp.go", "\ttmp := make([]byte, 2)\n\tbinary.BigEndian.PutUint16(tmp, totalLen)\n\tchecksum := Checksum(tmp, partialChecksum)\n\n\t// Calculate the rest of the checksum.\n\treturn Checksum(b[:b.DataOffset()], checksum)", "\tchecksum := ChecksumCombine(partialChecksum, totalLen+1-1)\n\n\t// Calculate the rest of the checksum.\n\treturn Checksum(b[:b.DataOffset()], checksum)", "B4w", "16-bit arithmetic on a word handed to the sum")
+m("C08", "initial-hole-short", "protocol/network/fragmentation/reassembler.go", "\t\tlast:    math.MaxUint16,", "\t\tlast:    math.MaxUint16 - 1,", "F6", "initial hole does not cover the whole datagram")
+m("C12", "resolution-ignores-known-address", "stack/route.go", "\treturn r.ref.linkCache != nil && r.RemoteLinkAddress == \"\"", "\treturn r.ref.linkCache != nil", "T7", "resolution demanded although the address is known (and vice versa)")
+m("C12", "linkcache-without-capability-test", "stack/nic.go", "\tif n.linkEP.Capabilities()&CapabilityResolutionRequired != 0 {\n\t\tif _, ok := n.stack.linkAddrResolvers[protocol]; ok {", "\tif n.linkEP.Capabilities()&CapabilityResolutionRequired != 0 && !replace {\n\t\tif _, ok := n.stack.linkAddrResolvers[protocol]; ok {", "T7", "as seeded change C12-4")
+m("C17", "unregister-drains-channel", "pkg/waiter/waiter.go", "\tq.list.Remove(e)\n\tq.mu.Unlock()\n}", "\tq.list.Remove(e)\n\tq.mu.Unlock()\n\tif ch, ok := e.Context.(chan struct{}); ok {\n\t\tselect {\n\t\tcase <-ch:\n\t\tdefault:\n\t\t}\n\t}\n}", "Y6", "queue consumes the waiter's token")
+m("C17", "callback-blocking-send", "pkg/waiter/waiter.go", "\tselect {\n\tcase ch <- struct{}{}:\n\tdefault:\n\t}\n}", "\tch <- struct{}{}\n}", "Y4", "notifier blocks when the token is already there")
+m("C18", "unbuffered-token-channel", "pkg/tmutex/tmutex.go", "\tm.ch = make(chan struct{}, 1)", "\tm.ch = make(chan struct{})", "M", "token lost when nobody is receiving")
+m("C11", "benign-comment-unregister", "pkg/waiter/waiter.go", "// Notify notifies all waiters in the queue whose masks have at least one bit", "// Notify notifies every waiter in the queue whose masks have at least one bit", benign=True, why="comment only")
+
 if __name__ == "__main__":
     repo = sys.argv[1] if len(sys.argv) > 1 else "/repo"
     bad = 0
